@@ -378,6 +378,12 @@ class _rewrite_captured_vars(ast.NodeTransformer):
         return any([a == a_name for frames in self._ignore_stack for a in frames])
 
 
+class _lambda_scope(dict):
+    "Names bound by a lambda we are inside of (as opposed to arguments being substituted)"
+
+    is_lambda_scope = True
+
+
 class _resolve_called_lambdas(ast.NodeTransformer):
     "Resolve any `(lambda x: x + 1)(y)` calls into just `y + 1`."
 
@@ -412,11 +418,12 @@ class _resolve_called_lambdas(ast.NodeTransformer):
         free_in_args = {
             n.id
             for arg_map in self._arg_map_list
+            if not getattr(arg_map, "is_lambda_scope", False)
             for v in arg_map.values()
             for n in ast.walk(v)
             if isinstance(n, ast.Name)
         }
-        mapping = {}
+        mapping = _lambda_scope()
         new_args = copy.copy(node.args)
         new_args.args = []
         for a in node.args.args:
